@@ -18,6 +18,7 @@ import (
 	"verif/seq/adapt"
 	"verif/seq/corpus6"
 	"verif/seq/fw"
+	"verif/seq/props/c02"
 	"verif/seq/ref/v6ref"
 )
 
@@ -171,6 +172,32 @@ func Check(c *fw.Ctx, scope string, order int64, in []byte) bool {
 		c.Report(fw.Violation{Fingerprint: "dhcpv6.FromBytes|field|" + v6ref.PathClass(path), Order: order, Scope: scope, Input: fw.Hex(in),
 			Observed: fmt.Sprintf("%s: library %s", path, desc) + "\nlibrary tree:   " + lt.String(), Expected: "reference tree: " + rt.String(),
 			Explain: "a decoded field differs from what the RFC layout says the bytes mean (library value vs reference value)", GoTest: goTest(in)})
+		return true
+	}
+	// history: the program edits the message it received, then the same datagram is decoded again;
+	// the second result is a function of the bytes alone
+	var lm2 dhcpv6.DHCPv6
+	var lerr2 error
+	var lt2 *v6ref.Msg
+	if pv, st := fw.Safe(func() {
+		c02.PoisonAll(lm)
+		lm2, lerr2 = dhcpv6.FromBytes(append([]byte(nil), in...))
+		if lerr2 == nil {
+			lt2 = adapt.TreeOfMessageWith(lm2, adapt.V6Opts{DedupORO: true})
+		}
+	}); pv != nil {
+		c.Report(fw.Violation{Fingerprint: "dhcpv6.FromBytes|panic-after-editing-an-earlier-result|" + fw.PanicSite(st), Order: order, Scope: scope, Input: fw.Hex(in),
+			Observed: fmt.Sprintf("panic: %v at %s", pv, st), Expected: "value or error", GoTest: goTest(in)})
+		return true
+	}
+	if lerr2 != nil {
+		c.Report(fw.Violation{Fingerprint: "dhcpv6.FromBytes|second-decode-differs|verdict", Order: order, Scope: scope, Input: fw.Hex(in),
+			Observed: fmt.Sprintf("second decode of the same bytes: err=%v", lerr2), Expected: "accepted, as the first time", GoTest: goTest(in)})
+	} else if ok, path, desc := v6ref.Equal(lt2, rt); !ok {
+		c.Report(fw.Violation{Fingerprint: "dhcpv6.FromBytes|second-decode-differs|" + v6ref.PathClass(path), Order: order, Scope: scope, Input: fw.Hex(in),
+			Observed: fmt.Sprintf("%s: library %s", path, desc) + "\nsecond decode: " + lt2.String(), Expected: "reference tree: " + rt.String(),
+			Explain: "messages decoded by separate calls share state: editing every field of the first result (and adding an option to it) changed what decoding the same bytes returns",
+			GoTest:  goTest(in)})
 	}
 	return true
 }
